@@ -115,6 +115,12 @@ func (r *Runner) runHistory(it *spec.Item) {
 								hist = append(hist, show(in))
 								o := inst.Step(obs.Req{Input: in, Want: want})
 								steps++
+								// C13 on a reused instance: whatever is reported indexes THIS input's rune sequence
+								if nr := len([]rune(in)); o.Panic != "" || o.ErrPanic != "" || o.ErrTok.E > nr || (len(o.Toks) > 0 && o.Toks[len(o.Toks)-1].E > nr) {
+									c := &caseCtx{it, gshow, v.Name, "", in, memo == 1, false}
+									r.eval("C13", true, fmt.Sprintf("%d|reuse|%s|%s", it.Idx, v.Name, show(in)), nil)
+									r.mismatch(c, "C13", "reused-instance-offsets", fmt.Sprintf("no panic, offsets within the %d runes of this input", nr), fmt.Sprintf("after history %s: panic=%q error-panic=%q error token %v", strings.Join(hist, " -> "), o.Panic, o.ErrPanic, o.ErrTok), cfg)
+								}
 								if got := ser(o); got != fresh[in] {
 									c := &caseCtx{it, gshow, v.Name, "", in, memo == 1, false}
 									hs := strings.Join(hist, " -> ")
